@@ -179,7 +179,7 @@ def generate(rng, tier):
             for fail in (0, 1):
                 n += 1
                 idx = '1' if path == b'il' else '0'
-                lines = gen.prelude(SCHEMA, 0) + ['validate2 0 %s %d' % (hx(path), K)] + (['failat 1'] if fail else []) + \
+                lines = gen.prelude(SCHEMA, 0) + ['validate2 0 %s %d' % (hx(path), K), 'dump 0'] + (['failat 1'] if fail else []) + \
                         ['%s 0 %s %s %s' % (setter, hx(path), args[0], idx), 'dump 0']
                 yield Scn('v2-%d' % n, lines, {'class': 'validate2', 'kind': 'v2', 'K': K, 'fail': fail, 'path': path, 'arg': args[0], 'setter': setter})
 
@@ -218,6 +218,12 @@ def oracle(scn, il):
         out.append(('log:w', '%s: validate2 log %s, expected %s' % (scn.id, got, want)))
     if fail and 'rc=-1 ' not in res:
         out.append(('veto-ignored', '%s: vetoed setter returned %s' % (scn.id, res[:60])))
+    bi = next((i for i, l in enumerate(scn.lines) if l == 'dump 0'), None)
+    before = body[bi] if bi is not None and bi < len(body) - 1 and body[bi].startswith('dump ') else None
+    if fail and before is not None and before != dump:
+        i = next((i for i, (x, y) in enumerate(zip(before, dump)) if x != y), 0)
+        out.append(('veto-changed-state', '%s: the setter was vetoed by the validation callback but the context changed near\n  %s\n  %s' % (
+            scn.id, before[max(0, i - 100):i + 60], dump[max(0, i - 100):i + 60])))
     if not fail and 'rc=0 ' not in res:
         out.append(('setter-failed', '%s: %s' % (scn.id, res[:100])))
     if not fail and K == 1 and scn.meta['setter'] == 'setint' and arg.startswith('-'):
